@@ -160,6 +160,16 @@ def repl_groupref(ctx):
         _rec(d, "threshold-is-9", k == 9, "multi-digit group references apply when there are more than 9 groups; the code compares the group count with %d" % k, loc)
         gp = [[_sh(strip_ver(render(x))) for x in e[2]] for e in p.effects if e[0] == "call" and e[1].endswith("get_paren")]
         ext = [[_sh(strip_ver(render(x))) for x in e[2]] for e in p.effects if e[0] == "call" and (e[1].endswith("::extend") or "Extend" in e[1])]
+        # where the turn leaves the cursor: behind the digit(s) the reference consumed - a digit left under the
+        # cursor is read again as an ordinary character and copied out
+        if p.end == "loop:%d" % h:
+            il = int(I[7:-1])
+            newi = strip_ver(render(p.env.get(il, ("uninit", il))))
+            if tm.group(1) == "!":
+                _rec(d, "single|cursor", newi == "add(2, %s)" % I, "with <= 9 groups `$N` consumes the '$' and one digit whether or not group N exists: the cursor must advance by 2; found %s" % newi, loc)
+            else:
+                mm = re.match(r"^add\((\d+), %s\)$" % re.escape(I), newi)
+                _rec(d, "multi|cursor", mm is not None and int(mm.group(1)) >= 2, "`$N` consumes the '$' and at least one digit: the cursor must advance by 2 or more; found %s" % newi, loc)
         pushes = [e for e in p.effects if e[0] == "call" and e[1].endswith("::push")]
         if tm.group(1) == "!":
             # at most 9 groups
